@@ -6,8 +6,10 @@ case = {"tree": [name, [[key, value], ...], [child, ...]],   # a Node tree, attr
         "sep": str, "pos": [child index, ...],               # start node = node at that position
         "opts": {"name_key", "parent_key", "path_col": str, "attr_dict": [[attr, out_key], ...],
                  "all_attrs": bool, "max_depth": int, "skip_depth": int, "leaf_only": bool},
-        "child_key": str, "stratum": str}
-obs  = {"dict": [[path, items]] | None, "nested": [[depth, items]] | None, "df": [items] | None,
+        "child_key": str, "dup": bool (duplicate_name_allowed of the path constructors in the round trips),
+        "cls": "Node" | "BinaryNode" (<= 2 children; a single child sits right when "right_only"), "stratum": str}
+obs  = {"seps": [root.sep of the four rebuilt trees | None],
+        "dict": [[path, items]] | None, "nested": [[depth, items]] | None, "df": [items] | None,
         "pl": [items] | None, "rt_dict" / "rt_nested" / "rt_df" / "rt_pl": [[depth, name, items]] | None}
    items = [[key, value], ...] sorted by key; value = ["N"] | ["I", int] | ["S", str] | ["B", bool];
    None = the call raised.
@@ -63,8 +65,10 @@ class ObsError(Exception):
     """the implementation returned something outside the observation format"""
 
 
-def _cv(v):
-    """canonical attribute / cell value"""
+def _cv(v, strict=True):
+    """canonical attribute / cell value.  strict: a float stays a float (tag F) -- only the pandas
+    observations fold NaN into null and integral floats into ints (a float64 column is what pandas
+    makes of an int column with missing cells)."""
     if v is None:
         return ["N"]
     if hasattr(v, "item") and not isinstance(v, (str, bytes)):   # numpy scalar
@@ -74,6 +78,8 @@ def _cv(v):
     if isinstance(v, int):
         return ["I", v]
     if isinstance(v, float):
+        if strict:
+            return ["F", repr(v)]
         if math.isnan(v):
             return ["N"]
         if v == int(v):
@@ -84,33 +90,77 @@ def _cv(v):
     raise ObsError("value outside the observed alphabet: %r" % (v,))
 
 
-def _items(d):
+def _items(d, strict=True):
     for k in d:
         if not isinstance(k, str):
             raise ObsError("non-str key %r" % (k,))
-    return [[k, _cv(d[k])] for k in sorted(d)]
+    return [[k, _cv(d[k], strict)] for k in sorted(d)]
 
 
-def _build(t, sep, Node, parent=None):
-    kw = {k: v for k, v in t[1]}
-    n = Node(t[0], sep=sep, **kw) if parent is None else Node(t[0], parent=parent, **kw)
-    for k in t[2]:
-        _build(k, sep, Node, n)
-    return n
+def bin_val(name):
+    """BinaryNode.__init__: self.val = int(name) if possible else str(name)"""
+    try:
+        return int(name)
+    except ValueError:
+        return str(name)
 
 
-_INTERNAL = ("_BaseNode__", "_Node__")
+def model_tree(case):
+    """the tree as the model sees it: a BinaryNode carries the public attribute `val`"""
+    if case.get("cls", "Node") != "BinaryNode":
+        return case["tree"]
+
+    def go(t):
+        return [t[0], sorted(t[1] + [["val", bin_val(t[0])]], key=lambda kv: kv[0]), [go(k) for k in t[2]]]
+    return go(case["tree"])
 
 
-def _flat_tree(n, depth=0):
+def _build(case):
+    sep = case["sep"]
+    if case.get("cls", "Node") == "BinaryNode":
+        from bigtree.node.binarynode import BinaryNode
+        right_only = case.get("right_only", False)
+
+        def gob(t):
+            n = BinaryNode(t[0], **{k: v for k, v in t[1]})
+            kids = [gob(k) for k in t[2]]
+            if len(kids) == 2:
+                n.left, n.right = kids
+            elif len(kids) == 1:
+                if right_only:
+                    n.right = kids[0]
+                else:
+                    n.left = kids[0]
+            elif kids:
+                raise ObsError("BinaryNode case with more than two children")
+            return n
+        root = gob(case["tree"])
+        root.sep = sep
+        return root
+    from bigtree.node.node import Node
+
+    def go(t, parent):
+        kw = {k: v for k, v in t[1]}
+        n = Node(t[0], sep=sep, **kw) if parent is None else Node(t[0], parent=parent, **kw)
+        for k in t[2]:
+            go(k, n)
+        return n
+    return go(case["tree"], None)
+
+
+_INTERNAL = ("_BaseNode__", "_Node__", "_BinaryNode__")
+
+
+def _flat_tree(n, depth=0, strict=True):
     from bigtree.node.node import Node
     if not isinstance(n, Node):
         raise ObsError("constructor did not return a Node")
     at = {k: v for k, v in n.__dict__.items()
           if k not in ("name", "_sep") and not k.startswith(_INTERNAL)}
-    out = [[depth, n.node_name, _items(at)]]
+    out = [[depth, n.node_name, _items(at, strict)]]
     for c in n.children:
-        out.extend(_flat_tree(c, depth + 1))
+        if c is not None:
+            out.extend(_flat_tree(c, depth + 1, strict))
     return out
 
 
@@ -118,7 +168,10 @@ def _flat_nested(d, ck, depth=0):
     if not isinstance(d, dict):
         raise ObsError("nested export is not a dict")
     out = [[depth, _items({k: v for k, v in d.items() if k != ck})]]
-    for c in d.get(ck, []):
+    kids = d.get(ck, [])
+    if not isinstance(kids, list):
+        raise ObsError("child list is not a list")
+    for c in kids:
         out.extend(_flat_nested(c, ck, depth + 1))
     return out
 
@@ -126,7 +179,7 @@ def _flat_nested(d, ck, depth=0):
 def _rows_pd(df):
     if not len(df.columns):
         return []
-    return [_items(r) for r in df.to_dict(orient="records")]
+    return [_items(r, strict=False) for r in df.to_dict(orient="records")]
 
 
 def _rows_pl(df):
@@ -144,66 +197,84 @@ def _guard(f):
         return None
 
 
+def nested_key(case):
+    return case["opts"]["name_key"] or "name"
+
+
 def run_impl(prop, case):
-    from bigtree.node.node import Node
     from bigtree.tree import construct, export
 
     sep = case["sep"]
     o = case["opts"]
     ck = case["child_key"]
+    dup = case.get("dup", True)
+    nk = nested_key(case)
 
-    def fresh():
-        root = _build(case["tree"], sep, Node)
-        start = root
-        for i in case["pos"]:
-            start = start.children[i]
-        return root, start
+    # ONE tree object for everything: every exporter runs on it (three of them twice), then the four
+    # round trips; at the end the tree must still be what it was
+    root = _build(case)
+    before = _flat_tree(root)
+    start = root
+    for i in case["pos"]:
+        start = [c for c in start.children if c is not None][i]
 
     common = dict(attr_dict={k: v for k, v in o["attr_dict"]}, all_attrs=o["all_attrs"], max_depth=o["max_depth"])
     gates = dict(skip_depth=o["skip_depth"], leaf_only=o["leaf_only"])
     obs = {}
 
     def ex_dict():
-        _, start = fresh()
         d = export.tree_to_dict(start, name_key=o["name_key"], parent_key=o["parent_key"], **common, **gates)
         if not isinstance(d, dict):
             raise ObsError("export is not a dict")
         return [[p, _items(r)] for p, r in d.items()]
 
     def ex_nested():
-        _, start = fresh()
         d = export.tree_to_nested_dict(start, name_key=o["name_key"], child_key=ck, **common)
         return _flat_nested(d, ck)
 
     def ex_df():
-        _, start = fresh()
         return _rows_pd(export.tree_to_dataframe(start, path_col=o["path_col"], name_col=o["name_key"],
                                                  parent_col=o["parent_key"], **common, **gates))
 
     def ex_pl():
-        _, start = fresh()
         return _rows_pl(export.tree_to_polars(start, path_col=o["path_col"], name_col=o["name_key"],
                                               parent_col=o["parent_key"], **common, **gates))
 
+    seps = {}
+
+    def rebuilt(key, t, strict=True):
+        seps[key] = t.sep
+        return _flat_tree(t, strict=strict)
+
     def rt_dict():
-        root, _ = fresh()
-        return _flat_tree(construct.dict_to_tree(export.tree_to_dict(root, all_attrs=True), sep=sep))
+        return rebuilt("rt_dict", construct.dict_to_tree(export.tree_to_dict(root, all_attrs=True), sep=sep,
+                                                         duplicate_name_allowed=dup))
 
     def rt_nested():
-        root, _ = fresh()
-        return _flat_tree(construct.nested_dict_to_tree(export.tree_to_nested_dict(root, all_attrs=True)))
+        d = export.tree_to_nested_dict(root, name_key=nk, child_key=ck, all_attrs=True)
+        return rebuilt("rt_nested", construct.nested_dict_to_tree(d, name_key=nk, child_key=ck))
 
     def rt_df():
-        root, _ = fresh()
-        return _flat_tree(construct.dataframe_to_tree(export.tree_to_dataframe(root, all_attrs=True), sep=sep))
+        return rebuilt("rt_df", construct.dataframe_to_tree(export.tree_to_dataframe(root, all_attrs=True), sep=sep,
+                                                            duplicate_name_allowed=dup), strict=False)
 
     def rt_pl():
-        root, _ = fresh()
-        return _flat_tree(construct.polars_to_tree(export.tree_to_polars(root, all_attrs=True), sep=sep))
+        return rebuilt("rt_pl", construct.polars_to_tree(export.tree_to_polars(root, all_attrs=True), sep=sep,
+                                                         duplicate_name_allowed=dup))
 
-    for key, f in (("dict", ex_dict), ("nested", ex_nested), ("df", ex_df), ("pl", ex_pl),
-                   ("rt_dict", rt_dict), ("rt_nested", rt_nested), ("rt_df", rt_df), ("rt_pl", rt_pl)):
+    for key, f in (("dict", ex_dict), ("nested", ex_nested), ("df", ex_df), ("pl", ex_pl)):
         obs[key] = _guard(f)
+    for key, f in (("df", ex_df), ("nested", ex_nested), ("dict", ex_dict)):
+        if _guard(f) != obs[key]:
+            raise ObsError("exporting the same tree a second time gives a different " + key + " export")
+    for key, f in (("rt_dict", rt_dict), ("rt_nested", rt_nested), ("rt_df", rt_df), ("rt_pl", rt_pl)):
+        obs[key] = _guard(f)
+    obs["seps"] = [seps.get(k) if obs[k] is not None else None for k in ("rt_dict", "rt_nested", "rt_df", "rt_pl")]
+    for s_ in obs["seps"]:
+        if s_ is not None and not isinstance(s_, str):
+            raise ObsError("separator of a rebuilt tree is not a str")
+    if _flat_tree(root) != before:
+        raise ObsError("the exported tree was modified by the exporters / constructors")
     return obs
 
 
@@ -221,6 +292,9 @@ def cval(v):
         return "VBool " + cbool(v[1])
     if k == "S":
         return "VStr " + cstr(v[1])
+    if k == "F":                       # a float where the model has none: never equal to a model value
+        f = float(v[1])
+        return f"VFloat ({int(f)}) 1" if f == f and abs(f) < 1e15 and f == int(f) else "VFloat 0 0"
     raise ValueError(v)
 
 
@@ -256,7 +330,7 @@ def emit(prop, case, obs):
     f_nested = lambda l: clist(f"({int(d)}, {crec(r)})" for d, r in l)
     f_rows = lambda l: clist(crec(r) for r in l)
     parts = [
-        "(" + ctree(case["tree"]) + ")", cstr(case["sep"]), clist(str(int(i)) for i in case["pos"]),
+        "(" + ctree(model_tree(case)) + ")", cstr(case["sep"]), clist(str(int(i)) for i in case["pos"]),
         "(" + copts(case["opts"]) + ")",
         _copt(obs["dict"], f_dict), _copt(obs["nested"], f_nested), _copt(obs["df"], f_rows),
         _again(obs["df"], obs["pl"], f_rows),
@@ -264,6 +338,8 @@ def emit(prop, case, obs):
         _again(obs["rt_dict"], obs["rt_nested"], _flat),
         _again(obs["rt_dict"], obs["rt_df"], _flat),
         _again(obs["rt_df"], obs["rt_pl"], _flat),
+        cstr(nested_key(case)), cbool(case.get("dup", True)),
+        clist(_copt(x, cstr) for x in obs["seps"]),
     ]
     return "XC " + " ".join(parts)
 
@@ -323,10 +399,24 @@ def gen_shape(rng, kind, nmax):
     return nodes[0]
 
 
-def decorate(rng, shape, pool, attr_keys, none_rate):
+def decorate(rng, shape, pool, attr_keys, none_rate, unique=False):
     names = list(pool)
+    fresh = list(pool)
+    rng.shuffle(fresh)
 
     def go(sh, name):
+        if unique:      # globally distinct names (what duplicate_name_allowed=False accepts)
+            attrs = []
+            for k in attr_keys:
+                if rng.random() < 0.6:
+                    attrs.append([k, None if rng.random() < none_rate else ATTR_TYPES[k](rng)])
+            attrs.sort(key=lambda kv: kv[0])
+            kids = []
+            for c in sh:
+                if not fresh:
+                    break
+                kids.append(go(c, fresh.pop()))
+            return [name, attrs, kids]
         attrs = []
         for k in attr_keys:
             if rng.random() < 0.6:
@@ -335,7 +425,7 @@ def decorate(rng, shape, pool, attr_keys, none_rate):
         ks = rng.sample(names, min(len(sh), len(names)))
         return [name, attrs, [go(c, nm) for c, nm in zip(sh, ks)]]
 
-    return go(shape, rng.choice(names))
+    return go(shape, fresh.pop() if unique else rng.choice(names))
 
 
 def gen_opts(rng, attr_keys, height):
@@ -364,23 +454,31 @@ def gen_opts(rng, attr_keys, height):
 def gen_case(rng, shape_kind=None, pool_name=None, nmax=11):
     shape_kind = shape_kind or rng.choice(["wide", "deep", "deep", "mixed", "mixed", "path", "star"])
     pool_name = pool_name or rng.choice(["distinct", "repeated", "affix", "special"])
+    binary = rng.random() < 0.12          # BinaryNode: at most two children, empty slots (None) on one side
+    if binary and pool_name == "special":  # numeric names would make `val` an int at some nodes only
+        pool_name = "affix"
     pool = NAME_POOLS[pool_name]
     shape = gen_shape(rng, shape_kind, nmax)
     # sibling names are distinct: never more children than names in the pool
+    width = min(len(pool), 2) if binary else len(pool)
     def clip(sh):
-        del sh[len(pool):]
+        del sh[width:]
         for c in sh:
             clip(c)
     clip(shape)
     attr_keys = rng.sample(list(ATTR_TYPES), rng.randint(0, 3))
-    tree = decorate(rng, shape, pool, attr_keys, rng.choice([0.0, 0.0, 0.2, 0.5]))
+    dup = rng.random() < 0.6
+    unique = (not dup) and rng.random() < 0.7 and len(pool) >= 8
+    tree = decorate(rng, shape, pool, attr_keys, rng.choice([0.0, 0.0, 0.2, 0.5]), unique=unique)
     nodes = t_nodes(tree)
     pos = [] if rng.random() < 0.4 else list(rng.choice(nodes)[1])
     return {
         "tree": tree, "sep": rng.choice(SEPS), "pos": pos,
         "opts": gen_opts(rng, attr_keys, t_height(tree)),
         "child_key": rng.choice(["children", "children", "kids", "#c"]),
-        "stratum": f"{shape_kind}/{pool_name}",
+        "dup": dup,
+        "cls": "BinaryNode" if binary else "Node", "right_only": rng.random() < 0.5,
+        "stratum": f"{'bin-' if binary else ''}{shape_kind}/{pool_name}",
     }
 
 
@@ -481,7 +579,8 @@ def _multichar(case):
 def matches_finding(prop, entry, case, obs, flags):
     # K3: lstrip(sep)/rstrip(sep) (and the pandas / polars string ops) strip a character set; only
     # reachable with a separator of more than one character
-    return entry.get("id") == "K3-C06" and _multichar(case)
+    # and only when the model predicts exactly what was observed and the property is what fails
+    return entry.get("id") == "K3-C06" and _multichar(case) and flags == 2
 
 
 def shrink_candidates(prop, case):
@@ -565,9 +664,13 @@ def sample(prop, case, obs):
 
 def rule(prop):
     return ("random Node trees (2-11 nodes; shapes wide/deep/mixed/path/star; name pools distinct/repeated/affix/special; "
-            "separators / \\ - . |; typed attributes with nulls and a private one) x random start node x random option sets "
-            "(name/parent/path keys incl. empty, attr_dict incl. missing attribute and key collision, all_attrs, max_depth, "
-            "skip_depth, leaf_only), each run through the four exporters and the four export->constructor round trips; "
+            "separators / \\ - . |; typed attributes incl. falsy values, nulls, a private one, different attribute sets per node; "
+            "12 % built from BinaryNode with empty left/right slots) x random start node x random option sets "
+            "(name/parent/path keys incl. empty, child_key, attr_dict incl. missing attribute and key collision, all_attrs, max_depth, "
+            "skip_depth, leaf_only), each run ON ONE TREE OBJECT through the four exporters (three of them twice, results must "
+            "repeat), then the four export->constructor round trips (nested pair with the case's name_key/child_key; path "
+            "constructors with duplicate_name_allowed True/False and the tree's separator; the rebuilt root's sep is observed), and "
+            "the source tree must be unchanged at the end; "
             "non-trivial = >= 4 nodes, height >= 3, dict export non-empty and either a proper subset of the nodes or carrying "
             "attribute values; distinct by canonical JSON hash")
 
@@ -593,9 +696,21 @@ def partial_clauses(prop):
         "the clause is refuted on the model (C06_dict_roundtrip_multichar_refuted = known finding K3-C06)",
         "frame round trip: equality up to attribute order and without null-valued attributes (frames cannot represent them; "
         "dataframe_to_tree documents that nulls are not set), no attribute called 'path'",
-        "round trips are stated for the full export of the whole tree with default keys; re-importing a partial export "
-        "(inner start node, gates) is checked by correspondence on the export side only",
-        "constructors are modelled with their default arguments (duplicate_name_allowed=True, path_col/attribute_cols unset)",
+        "round trips are stated for the full export of the whole tree; re-importing a partial export "
+        "(inner start node, gates, attr_dict renaming) is checked by correspondence on the export side only",
+        "theorems cover the constructors' default arguments; duplicate_name_allowed=False and a caller-chosen name_key / "
+        "child_key of the nested pair are modelled (grow_nodup, rt_nested_with) and checked by correspondence, not proved",
+        # accepted blind spots of the correspondence (audit of 2026-10-01)
+        "NOT compared: key order inside an exported record / column order and dtypes and index of a frame (records are "
+        "compared as finite maps, a frame as its row dicts); a frame without columns shows no rows; `children: []` on a leaf of a "
+        "nested dict is not told apart from a missing child key; the exception class (accepted / rejected only)",
+        "pandas observations (tree_to_dataframe rows, tree rebuilt by dataframe_to_tree) fold NaN into null and integral floats "
+        "into ints, because pandas itself turns an int column with missing cells into float64; every other observation is strict",
+        "path round trips are compared only for trees in which no name contains the separator (outside, paths collide and the "
+        "outcome depends on pandas' rendering of cells); never generated: attribute values other than int/str/bool/None (floats, "
+        "containers, mutable values), non-str names, attribute names that are Node members, negative depths, custom Node "
+        "subclasses / node_type=, explicit path_col / attribute_cols of the frame constructors, a constructor separator different "
+        "from the tree's, multi-character separators (one corpus witness only)",
     ]
 
 
